@@ -85,13 +85,15 @@ def _check(run):
         return out
 
     def pool_big():
-        cfgs = [(2, 1, 1, 2, "ProgsAll")] if quick else [(2, 2, 1, 1, "ProgsAll"), (2, 2, 2, 2, "ProgsFlat"), (3, 1, 1, 1, "ProgsAll")]
+        cfgs = [(2, 1, 1, 2, "ProgsAll")] if quick else [(2, 2, 1, 1, "ProgsAll"), (2, 2, 2, 1, "ProgsAll"), (2, 2, 2, 2, "ProgsFlat"), (3, 1, 1, 1, "ProgsMix")]
+        total = 0
         for (w, j, p, e, progs) in cfgs:
             r = run.tlc("ExprPool_MC", _pool_cfg(w, j, p, e, progs), workers=4, timeout=3000,
                         label="ExprPool W=%d J=%d P=%d E=%d %s" % (w, j, p, e, progs))
             require_clean(run, r, "ExprPool W=%d J=%d P=%d %s" % (w, j, p, progs))
-            if r.distinct < 100000:
-                raise Inconclusive("pool model explored only %d states" % r.distinct)
+            total += r.distinct
+        if total < 100000:
+            raise Inconclusive("pool model explored only %d states" % total)
 
     # ---- B1: TLC enumerates histories with expectations; the real compiler performs them
     def gen():
@@ -128,7 +130,7 @@ def _check(run):
             return None
         if p.returncode != 0:
             raise Inconclusive("driver failed (%d):\n%s" % (p.returncode, p.stderr[-4000:]))
-        run.drv(["trace", "-out", b2_trace, "-n", 9000 if quick else 160000])
+        run.drv(["trace", "-out", b2_trace, "-n", 9000 if quick else 300000])
         b2_lines = open(b2_trace).read().splitlines()
         lines = list(b2_lines)
         if not quick:
@@ -207,6 +209,28 @@ def _check(run):
                           _txt(m["got"]), " PANIC " + m["panic"] if m["panic"] else "",
                           m["expect"]["k"], _txt(m["expect_text"]) if m["expect"]["k"] == "out" else
                           [bytes(a).decode("latin1") for a in m["expect"]["alts"] or []]), m)
+
+    # ---- thorough: the pool-sensitive histories and the concurrent phase once more under the race detector
+    if not quick:
+        sub = os.path.join(run.scratch, "c17-vectors-pool.ndjson")
+        with open(vec_path) as f, open(sub, "w") as g:
+            for ln in f:
+                if '"g":"conc"' in ln or '"g":"hist2"' in ln:
+                    g.write(ln)
+        p = run.drv(["replay", "-in", sub, "-out", os.path.join(run.scratch, "c17-race.json"), "-rounds", 3000], race=True,
+                    check=False, timeout=1500, env={"GORACE": "halt_on_error=1 exitcode=66"})
+        if p.returncode == 66 or "WARNING: DATA RACE" in p.stderr:
+            frames = [ln.strip() for ln in p.stderr.splitlines() if "rare/pkg/" in ln][:8]
+            run.violation("conc:data-race", "the race detector reports a data race while 8 goroutines evaluate shared compiled "
+                          "expressions: %s" % "; ".join(frames), {"stderr": p.stderr[:4000]})
+        elif p.returncode != 0:
+            raise Inconclusive("race-detector replay failed (%d):\n%s" % (p.returncode, p.stderr[-3000:]))
+        else:
+            rr = json.load(open(os.path.join(run.scratch, "c17-race.json")))
+            run.cov["race_detector_evaluations"] = rr["runs"] + rr["concurrent_runs"]
+            for m in rr["mismatches"] or []:
+                run.violation("%s:%s:%s" % ("conc" if m["g"] == "conc" else "hist", m["f"], m["class"]),
+                              "(race build) template %s evaluates to %s, expected %s" % (m["template"], _txt(m["got"]), _txt(m["expect_text"])), m)
 
     consumed = nontrivial = canary = canary_rejected = 0
     for (i, pth, part), (r, _) in zip(chunks, results):
